@@ -451,6 +451,20 @@ def check(ctx: Ctx) -> None:
             elif ("sym", "timeout") not in (list(wt[0].args) + list(wt[0].kwargs.values())):
                 ob.violation(fw, wt[0].node, "waitall does not forward its timeout to the event wait")
         ob.require(nret >= 2, "waitall: return paths not found")
+        # a timed-out wait only reports: it changes no pool state (the event it registered is retired by _perform_spawn, which may
+        # already have popped it -- touching the list again races with that)
+        for (pth, st_) in evw.run(limit=4000):
+            wts = [e for e in st_.events if e.kind == "call" and e.attr == "wait"]
+            if not wts:
+                continue
+            for e in st_.events[st_.events.index(wts[-1]) + 1:]:
+                mut = (e.kind == "call" and e.recv is not None and e.recv[0] == "sym" and e.recv[1] in ("self._waitall_events", "self._running")
+                       and e.attr in ("remove", "pop", "append", "clear", "discard", "add")) or \
+                      (e.kind in ("assign", "store", "del") and str(e.target or "").startswith(("self._waitall_events", "self._running")))
+                if mut:
+                    ob.violation(fw, e.node, f"waitall touches pool state after its wait returned (`{str(e)[:60]}`): the finishing task may already have retired the "
+                                             "event -- a timed-out waitall()/terminate() raises instead of returning False", construct="waitall mutates after wait")
+                    break
         # _perform_spawn: run, then remove + notify in one region
         rm = [c for c in repo.calls_in(fp) if callee_attr(c) == "remove" and "_running" in unparse(c.func)]
         st = [c for c in repo.calls_in(fp) if callee_attr(c) == "set"]
